@@ -62,6 +62,9 @@ CHECKS["C03"] = dict(engine="enum", technique="bounded-exhaustive enumeration of
 CHECKS["C04"] = dict(engine="enum", technique="bounded-exhaustive mutation enumeration: every insertion (and pair) of a well-formed unknown field at every admissible position and nesting level, every member deletion, every ordered pair of encodings decoded into one reused value, judged against the reference decoder",
              text="53 well-formed field shapes (all wire types, nested to depth 4, 255/256-element containers, extended tags, StructEnd-looking payloads) inserted at every gap of the top-level body and of nested structs/containers with every free tag class, singly and in pairs; exact consumption checked by a sentinel after ReadBlock; deletions of every optional/required member; reuse: decode A then B into the same value for all ordered baseline pairs.",
              note="Reader position is read by reflection (codec.Reader has no accessor); arrays of structs without element defaults are accepted either way.", ref="§5 C04")
+CHECKS["C05"] = dict(engine="enum", level="fault_enumeration", technique="bounded-exhaustive enumeration of hostile inputs (all short byte strings, every single/double byte mutation of valid encodings, every embedded length replaced by hostile constants, nesting bombs up to the maximum packet size) on every network-reachable decode entry point, executed in resource-limited worker subprocesses that announce each case",
+             text="75 decode entry points (ReadFrom/ReadBlock of all framework structs and generated array structs, TUP, generated Dispatch in TARS/TUP/JSON, Protocol.Invoke/InvokeTimeout with TCP frames and UDP datagrams of any length, client ResponseUnpack and AdapterProxy.Recv) x 1.9 M (42 M) inputs; workers run under ulimit -v with the default 1 GB stack; oracle: no panic, no process death (stack overflow, OOM, os.Exit), termination, bytes allocated <= 64 x input + 64 KiB.",
+             note="Termination is a generous wall-clock backstop confirmed by an isolated re-run; OOM verdicts hold under a 4 GiB address-space limit; recovered panics inside the client receive path are counted but not violations.", ref="§5a C05")
 NOT_YET = {}
 ALL = ["C%02d" % i for i in range(1, 21)]
 
